@@ -106,6 +106,13 @@ def check_c04(ck, tier, replay=None):
             if s_ == 'sat': found.append(('WriteDist normalisation', 'bonded' if bonded else 'non-bonded', mdl))
     ck.bounds.update({'bins': NB, 'frames': '<= 3', 'interactions': 1, 'block length': '0 and 2'})
     counting_inside(ck, tier)
+    try:
+        import C04d
+        C04d.check_dispatch(ck, mod, tier, parsed, found)
+        ck.units += ['csg/src/tools/csg_stat_imc.cc (Imc::Worker::DoNonbonded: choice of bead lists and of the neighbour-search overload)']
+        ck.assumptions.append('DoNonbonded dispatch: Property::get/exists redirected to harness-held option values (no cg.nbsearch option), BeadList::Generate and NBList*::Generate are recording stubs reached through the real virtual calls (what they compute is C18/C03); bead types are one-letter names over {A,B}')
+    except ImportError:
+        pass
     for tag, what, mdl in found:
         rep = common.write_replay('C04', tag + what, {}, {'tag': tag, 'what': what, 'model': mdl})
         ok, why = replay_native(tag, mdl)
